@@ -372,6 +372,6 @@ example : (lowerStack ⟨⟨-3, -2⟩, ⟨7, 5⟩⟩
 -- [V] colour streams are finite lists; arbitrary `IntoIterator`s (infinite like `repeat`, non-fused, side-effecting) and the laziness of the real iterator chain (how many colours are pulled, and when) are outside the model: carried by correspondence + oracle only
 -- (closed) the colour map `f` of a colour-converted target is instantiated with every `From` impl between built-in colour types (C13's generated table, 182 pairs) in Props/C03/Conversions.lean (`converted_exact_all`, `converted_colours_valid`, `converted_black_white`, `converted_nested_all`); the Rust-level remainder (the adapter calls exactly `.into()`; the correspondence runs own colour types with `c -> 3c+k+1` and the real `BinaryColor -> Rgb565`) is listed there
 -- [V] `i32` overflow of translated coordinates / `u32 -> i32` saturation (excluded by the decidable guards `Rect.Ok`, `Call.Ok`, `stackOk`; totality at display scale is C08's subject): carried by correspondence + oracle only
--- [V] error propagation through the adapters (C04's subject) is proved at model level in EG/Props/C04/Adapters.lean (`adapter_call_is_one_parent_call`: in the error-aware transcription EG/Model/FaultTarget.lean each adapter method IS the parent's method on `Adapter.lower` of the call, so the parent's `Result` is returned unchanged); that the Rust methods are these tail calls (no `?`-and-continue, no work after the parent call, `clear` not overridden by `Clipped` / `Cropped`): carried by the `faults.prefix` correspondence stream and the fault enumeration of C04's check
+-- (closed) error propagation through the adapters (C04's subject) is proved at model level in EG/Props/C04/Adapters.lean (`adapter_call_is_one_parent_call`) and the premise "the Rust methods are these tail calls (no `?`-and-continue, no work after the parent call, `clear` not overridden by `Clipped` / `Cropped`)" is now a checked fact: EG/Props/C03/GeneratedAdapters.lean (`all_adapter_methods_are_tail_calls`, `adapter_overrides_pinned`, `src_lower_eq_model` over the adapter bodies regenerated from the Rust text by tools/tr_adapt.py); what that tie itself trusts is listed there
 
 end EG.C03
